@@ -1262,7 +1262,11 @@ func (p *Printer) command(cmd Command, redirs []*Redirect) (startRedirs int) {
 			p.wantSpace = spaceNotRequired
 		}
 
-		p.spacePad(stmtsPos(cmd.Stmts, cmd.Last))
+		if p.keepPadding || len(stmts) == 0 {
+			p.spacePad(stmtsPos(cmd.Stmts, cmd.Last))
+		}
+		// Otherwise a required space stays pending, and is dropped if the
+		// statements turn out to begin on a new line.
 		p.nestedStmts(cmd.Stmts, cmd.Last, cmd.Rparen)
 		p.closingParen(cmd.Stmts, cmd.Last, cmd.Lparen, cmd.Rparen)
 	case *WhileClause:
